@@ -197,12 +197,15 @@ def enhsp_case(rng, tier):
         # outside the layout: blank lines, indentation, missing final line end — the model alone judges
         r = rng.random()
         if r < 0.4:
+            # the last line is not terminated: still exactly the plan's steps (the spec oracle knows them)
             text = text.rstrip("\r\n")
+            kind = "enhsp-unterminated"
         elif r < 0.7:
             text = text.replace(")", ")\n", 1)
+            expect, kind = None, "enhsp-irregular"
         else:
             text = "  " + text
-        expect, kind = None, "enhsp-irregular"
+            expect, kind = None, "enhsp-irregular"
     return dict(kind=kind, enhsp=True, text=text, expect=expect, nontrivial=len(steps) > 0, nsteps=len(steps),
                 crlf="\r" in text)
 
